@@ -1,13 +1,18 @@
 """C20 (in part) — step and population accounting of the training loops.
 
-Real code executed: the whole of train_on_policy, train_multi_agent_on_policy and train_off_policy (no tournament, no
-mutation, no checkpoints, no logging) with a scripted vector environment, duck agents and a duck replay memory.
-Symbolic: the step budget max_steps, the evolution frequency evo_steps, the agents' learn_step (small bounded integers;
-loop trip counts that depend on them fork).  Decided: the accounting part of the property — population size and order,
-step counters equal to the environment steps actually taken, stop in the first generation in which the documented
-budget is met, one evaluation per agent and generation.
+Real code executed: the whole of train_on_policy, train_multi_agent_on_policy, train_off_policy,
+train_multi_agent_off_policy, train_bandits and train_offline (no logging) with a scripted vector environment, duck
+agents and a duck replay memory; in the "evolve" cases with the REAL TournamentSelection and
+tournament_selection_and_mutation (duck agents that can clone themselves, a duck Mutations) and a recorder in place of
+save_population_checkpoint.
+Symbolic: the step budget max_steps, the evolution frequency evo_steps (episode_steps for the bandit loop), the agents'
+learn_step, the checkpoint frequency (small bounded integers; loop trip counts that depend on them fork).  Decided: the
+accounting part of the property — population size, order and distinct indices, step counters equal to the environment
+steps actually taken, stop in the first generation in which the documented budget is met, one evaluation per agent and
+generation, the learn-call schedule, elitism (the best agent of a generation is carried into the next with its
+counters), how often selection and checkpointing run.
 NOT decided (outside; the rest of C20): that learn() accepts what the real samplers return for every algorithm / memory
-combination, evaluation, selection, mutation and checkpointing with real agents.
+combination, evaluation, mutation and checkpoint files with real agents.
 """
 from __future__ import annotations
 
@@ -22,6 +27,11 @@ from symx.shim import ShimInt
 import agilerl.training.train_on_policy as top_mod
 import agilerl.training.train_multi_agent_on_policy as tmop_mod
 import agilerl.training.train_off_policy as toff_mod
+import agilerl.training.train_multi_agent_off_policy as tmoff_mod
+import agilerl.training.train_bandits as tband_mod
+import agilerl.training.train_offline as tofl_mod
+import agilerl.utils.utils as utils_mod
+from agilerl.hpo.tournament import TournamentSelection
 
 PROPERTY = "C20"
 
@@ -39,11 +49,12 @@ def cint(x):
 
 
 class VecEnv:
-    """scripted vector environment: never ends an episode; counts reset() and step() calls per agent under training / test"""
+    """scripted vector environment: never ends an episode; counts reset() and step() calls"""
 
-    def __init__(self, num_envs, multi=None):
-        self.num_envs, self.multi = num_envs, multi
+    def __init__(self, num_envs, multi=None, bandit=False):
+        self.num_envs, self.multi, self.bandit = num_envs, multi, bandit
         self.steps, self.resets = 0, 0
+        self.agents = list(multi) if multi else None
 
     def _obs(self):
         if self.multi:
@@ -52,10 +63,14 @@ class VecEnv:
 
     def reset(self, *a, **k):
         self.resets += 1
+        if self.bandit:
+            return np.zeros((2, 1), dtype=np.float32)
         return self._obs(), {}
 
     def step(self, action):
         self.steps += 1
+        if self.bandit:
+            return np.zeros((2, 1), dtype=np.float32), 0.0
         z, f = np.zeros(self.num_envs, dtype=np.float32), np.zeros(self.num_envs, dtype=bool)
         if self.multi:
             return self._obs(), {a: z for a in self.multi}, {a: f for a in self.multi}, {a: f for a in self.multi}, {}
@@ -63,27 +78,47 @@ class VecEnv:
 
 
 class Agent:
-    """duck agent: counts what the loop asks of it"""
+    """duck agent: counts what the loop asks of it; clone() copies the counters (they belong to the lineage)"""
 
-    def __init__(self, index, env, learn_step, multi=None, batch_size=4):
-        self.index, self.env, self.learn_step, self.batch_size = index, env, learn_step, batch_size
+    def __init__(self, index, env, learn_step, loop, multi=None, batch_size=4):
+        self.index, self.env, self.learn_step, self.batch_size, self.loop = index, env, learn_step, batch_size, loop
         self.steps, self.scores, self.fitness, self.mut = [0], [], [], "None"
         self.env_steps_taken, self.tests, self.learns = 0, 0, 0
+        self.lineage = index
         self.action_space = {a: spaces.Discrete(2) for a in multi} if multi else spaces.Discrete(2)
         self.agent_ids, self.shared_agent_ids, self.actors = (list(multi), ["ag"], []) if multi else (None, None, None)
         self.multi = multi
         self.beta = 0.4
         self.algo = "Duck"
+        self.regret = [0]
+        self.discrete_actions = True
+
+    def clone(self, index=None, wrap=True):
+        c = Agent.__new__(Agent)
+        c.__dict__.update(self.__dict__)
+        for k in ("steps", "scores", "fitness", "regret"):
+            setattr(c, k, list(getattr(self, k)))
+        if index is not None:
+            c.index = index
+        return c
 
     def set_training_mode(self, m):
+        pass
+
+    def reset_action_noise(self, idx):
         pass
 
     def get_homo_id(self, a):
         return "ag"
 
     def get_action(self, *a, **k):
-        self.env_steps_taken += self.env.num_envs          # every action is followed by exactly one env.step in the loops
         n = self.env.num_envs
+        self.env_steps_taken += 1 if self.loop == "bandit" else n      # every action is followed by exactly one env.step in the loops
+        if self.loop == "bandit":
+            return 0
+        if self.loop == "ma-off":
+            d = {a_: np.zeros(n, dtype=np.int64) for a_ in self.multi}
+            return d, d
         if self.multi:
             d = {a_: np.zeros(n, dtype=np.int64) for a_ in self.multi}
             return d, d, {a_: np.zeros(n) for a_ in self.multi}, d
@@ -93,6 +128,8 @@ class Agent:
 
     def learn(self, *a, **k):
         self.learns += 1
+        if self.loop == "ma-off":
+            return {a_: (0.0, 0.0) for a_ in self.multi}
         return {"ag": 0.0} if self.multi else 0.0
 
     def assemble_homogeneous_outputs(self, x, n):
@@ -100,90 +137,223 @@ class Agent:
 
     def test(self, env, **k):
         self.tests += 1
-        self.fitness.append(0.0)
-        return {"ag": 0.0} if False else 0.0
+        # a fitness that moves the best agent around between generations (concrete: ranking is C05's subject)
+        f = float((self.index * 7 + self.tests * 3) % 5)
+        self.fitness.append(f)
+        return f
 
 
 class Memory:
-    size = 0
+    """duck replay memory: either never ready (no learn step) or always ready (the learn schedule is observable)"""
+
+    def __init__(self, ready):
+        self.ready, self.adds, self.samples = ready, 0, 0
+        self.size = 100 if ready else 0
+        self.counter = 100 if ready else 0
 
     def __len__(self):
-        return 0
+        return 100 if self.ready else 0
 
     def add(self, *a, **k):
-        self.adds = getattr(self, "adds", 0) + 1
+        self.adds += 1
+
+    def save_to_memory(self, *a, **k):
+        self.adds += 1
+
+    def sample(self, *a, **k):
+        self.samples += 1
+        return {"obs": None}
+
+
+class Mut:
+    """duck Mutations: marks the agents, never changes the population"""
+
+    def __init__(self):
+        self.calls = 0
+
+    def mutation(self, pop, pre_training_mut=False):
+        self.calls += 1
+        for a in pop:
+            a.mut = "dummy"
+        return pop
+
+
+class Tourn(TournamentSelection):
+    """the real selection, with its inputs and outputs recorded"""
+
+    def __init__(self, P):
+        super().__init__(2, True, P, 1)
+        self.rounds = []
+
+    def select(self, population):
+        before = [(a.lineage, a.index, a.steps[-1], list(a.fitness), a.env_steps_taken) for a in population]
+        elite, new = super().select(population)
+        after = [(a.lineage, a.index, a.steps[-1], list(a.fitness), a.env_steps_taken) for a in new]      # a snapshot: the agents train on
+        self.rounds.append((before, elite, after))
+        return elite, new
+
+
+LOOPS = {"on": (top_mod, "train_on_policy"), "ma-on": (tmop_mod, "train_multi_agent_on_policy"), "off": (toff_mod, "train_off_policy"),
+         "ma-off": (tmoff_mod, "train_multi_agent_off_policy"), "bandit": (tband_mod, "train_bandits"), "offline": (tofl_mod, "train_offline")}
 
 
 class Accounting(Case):
-    stubs = ("environment = scripted vector env that never ends an episode and counts its step() calls", "agents = duck agents counting get_action / learn / test calls",
-             "replay memory = duck memory that never has enough samples (off-policy: no learn step)", "tqdm / print silenced; isinstance(x, int) in the training modules accepts integer proxies")
-    assumptions = ("1 <= max_steps <= 8, 1 <= evo_steps <= 4, 1 <= learn_step <= 3 (loops fork on these)",)
-    outside = ("that learn() accepts what the real samplers return, evaluation / tournament / mutation / checkpointing with real agents (the rest of C20)",)
+    stubs = ("environment = scripted vector env that never ends an episode and counts its step() calls", "agents = duck agents counting get_action / learn / test calls (clone() copies the counters)",
+             "replay memory = duck memory, never ready (no learn step) or always ready (learn schedule observable)", "evolve cases: REAL TournamentSelection (tournament size 2, elitism, concrete numpy RNG re-seeded per run) and "
+             "tournament_selection_and_mutation, duck Mutations, save_population_checkpoint = recorder", "tqdm / print silenced; isinstance(x, int) in the training modules accepts integer proxies")
+    assumptions = ("1 <= max_steps <= 8, 1 <= evo_steps <= 4, 1 <= learn_step <= 3, 1 <= checkpoint <= 4 (loops fork on these)",)
+    outside = ("that learn() accepts what the real samplers return, evaluation / mutation / checkpoint files with real agents (the rest of C20)",)
 
-    def __init__(self, loop, num_envs, pop=2):
-        self.loop, self.E, self.P = loop, num_envs, pop
-        self.mod, self.fn = {"on": (top_mod, "train_on_policy"), "ma-on": (tmop_mod, "train_multi_agent_on_policy"), "off": (toff_mod, "train_off_policy")}[loop]
-        self.functions = (getattr(self.mod, self.fn),)
-        self.name = f"accounting-{self.fn}-envs{num_envs}-pop{pop}"
+    def __init__(self, loop, num_envs, pop=2, evolve=False, ready=False):
+        self.loop, self.E, self.P, self.evolve, self.ready = loop, num_envs, pop, evolve, ready
+        self.mod, self.fn = LOOPS[loop]
+        self.functions = (getattr(self.mod, self.fn),) + ((TournamentSelection.select, utils_mod.tournament_selection_and_mutation) if evolve else ())
+        self.name = f"accounting-{self.fn}-envs{num_envs}-pop{pop}" + ("-evolve" if evolve else "") + ("-ready" if ready else "")
         self.site = f"{self.fn}/accounting"
-        self.bounds = {"loop": self.fn, "num_envs": num_envs, "population": pop, "symbolic": "max_steps in [1,8], evo_steps in [1,4], every agent's own learn_step in [1,3]"}
+        self.bounds = {"loop": self.fn, "num_envs": num_envs, "population": pop, "tournament+mutation+checkpoint": evolve, "memory always ready": ready,
+                       "symbolic": "max_steps in [1,8], evo_steps (bandits: episode_steps and evo_steps) in [1,4], learn_step in [1,3] (per agent; shared by the population in the evolve cases), checkpoint in [1,4]"}
 
     def run(self, v):
-        E, P = self.E, self.P
+        E, P, loop = self.E, self.P, self.loop
         max_steps, evo = v.int("max_steps"), v.int("evo_steps")
-        lss = [v.int(f"learn_step{i}") for i in range(P)]          # per agent: members of a population may differ
+        if self.evolve:
+            ls0 = v.int("learn_step")
+            lss = [ls0] * P          # after selection the population is a mix of lineages: one schedule for all keeps the reference simple
+        else:
+            lss = [v.int(f"learn_step{i}") for i in range(P)]          # per agent: members of a population may differ
         v.assume(conj(max_steps >= 1, max_steps <= 8, evo >= 1, evo <= 4, *[conj(x >= 1, x <= 3) for x in lss]))
-        if self.loop == "off":
-            # train_off_policy takes evo_steps // num_envs steps per generation: with evo_steps < num_envs no step is ever
-            # taken and the budget loop cannot end (a configuration error, not judged here)
+        ep = ck = None
+        if loop == "bandit":
+            ep = v.int("episode_steps")
+            v.assume(conj(ep >= 1, ep <= 3))
+        if self.evolve:
+            ck = v.int("checkpoint")
+            v.assume(conj(ck >= 1, ck <= 4))
+        if loop in ("off", "ma-off"):
+            # these loops take evo_steps // num_envs steps per generation: with evo_steps < num_envs no step is ever taken
+            # and the budget loop cannot end (a configuration error, not judged here)
             v.assume(evo >= E, "off-policy: evo_steps >= num_envs")
-        multi = ["ag_0", "ag_1"] if self.loop == "ma-on" else None
-        env = VecEnv(E, multi)
-        pop = [Agent(i, env, lss[i], multi) for i in range(P)]
+        np.random.seed(12345)      # the tournament draws from numpy's global RNG: every re-execution must see the same draws
+        multi = ["ag_0", "ag_1"] if loop in ("ma-on", "ma-off") else None
+        env = VecEnv(E, multi, bandit=(loop == "bandit"))
+        pop = [Agent(i, env, lss[i], loop, multi) for i in range(P)]
         pop_in = list(pop)
-        patches = [(self.mod, "trange", lambda *a, **k: _Bar()), (self.mod, "print", lambda *a, **k: None)]
+        mem = Memory(self.ready)
+        saves = []
+        patches = [(self.mod, "trange", lambda *a, **k: _Bar()), (self.mod, "print", lambda *a, **k: None),
+                   (self.mod, "save_population_checkpoint", lambda **k: saves.append([a.index for a in k["population"]]))]
         if v.mode != "real":
             patches.append((self.mod, "int", ShimInt))
         fn = getattr(self.mod, self.fn)
+        kw = dict(max_steps=max_steps, evo_steps=evo, verbose=False)
+        tourn = mut = None
+        if self.evolve:
+            tourn, mut = Tourn(P), Mut()
+            kw.update(tournament=tourn, mutation=mut, checkpoint=ck, checkpoint_path="unused")
         with patched(*patches):
-            if self.loop == "off":
-                out_pop, fits = fn(env, "stub-env", "Duck", pop, Memory(), max_steps=max_steps, evo_steps=evo, verbose=False)
-            elif self.loop == "on":
-                out_pop, fits = fn(env, "stub-env", "Duck", pop, max_steps=max_steps, evo_steps=evo, verbose=False)
+            if loop == "off":
+                out_pop, fits = fn(env, "stub-env", "Duck", pop, mem, **kw)
+            elif loop == "ma-off":
+                out_pop, fits = fn(env, "stub-env", "Duck", pop, mem, sum_scores=True, **kw)
+            elif loop == "on":
+                out_pop, fits = fn(env, "stub-env", "Duck", pop, **kw)
+            elif loop == "ma-on":
+                out_pop, fits = fn(env, "stub-env", "Duck", pop, sum_scores=True, **kw)
+            elif loop == "bandit":
+                out_pop, fits = fn(env, "stub-env", "Duck", pop, mem, episode_steps=ep, **kw)
             else:
-                out_pop, fits = fn(env, "stub-env", "Duck", pop, sum_scores=True, max_steps=max_steps, evo_steps=evo, verbose=False)
+                data = {"observations": np.zeros((3, 1), dtype=np.float32), "actions": np.zeros((3, 1), dtype=np.int64),
+                        "rewards": np.zeros((3, 1), dtype=np.float32), "terminals": np.zeros((3, 1), dtype=np.float32)}
+                out_pop, fits = fn(env, "stub-env", data, "Duck", pop, mem, **kw)
         ms, ev = cint(max_steps), cint(evo)
         ls_c = [cint(x) for x in lss]
         # reference: environment steps agent i takes per generation, as the loops are documented
-        if self.loop == "off":
+        if loop in ("off", "ma-off"):
             per = [(ev // E) * E for _ in ls_c]
+        elif loop == "bandit":
+            per = [cint(ep) for _ in ls_c]
+        elif loop == "offline":
+            per = [ev for _ in ls_c]          # offline: a "step" is a learn step on the dataset
         else:
             per = [-(-ev // l) * -(-l // E) * E for l in ls_c]
-        per_gen = min(per)
-        res = [Ob("population-keeps-its-size-and-order", len(out_pop) == P and all(a is b for a, b in zip(out_pop, pop_in)))]
-        res.append(Ob("indices-stay-distinct", len({a.index for a in out_pop}) == len(out_pop)))
-        for a in pop_in:
-            res.append(Ob(f"agent{a.index}/step-counter-equals-the-environment-steps-it-took", a.steps[-1] == a.env_steps_taken, site=self.site + "/step-counter"))
+        final = list(out_pop)
+        res = [Ob("population-keeps-its-size", len(final) == P)]
+        if not self.evolve:
+            res.append(Ob("population-keeps-its-order", all(a is b for a, b in zip(final, pop_in))))
+        res.append(Ob("indices-stay-distinct", len({a.index for a in final}) == len(final), site=self.site + "/indices"))
+        for i, a in enumerate(final):
+            taken = a.learns if loop == "offline" else a.env_steps_taken
+            res.append(Ob(f"agent{i}/step-counter-equals-the-environment-steps-it-took", a.steps[-1] == taken, site=self.site + "/step-counter"))
         # generations actually run = evaluations per agent
-        G = pop_in[0].tests
-        res.append(Ob("one-evaluation-per-agent-and-generation", all(a.tests == G and len(a.fitness) == G for a in pop_in), site=self.site + "/fitness-entries"))
-        if per_gen > 0:
-            if self.loop == "ma-on":
-                # budget summed over the population
-                done_after = lambda g: sum(g * x for x in per) >= ms
+        G = final[0].tests
+        res.append(Ob("one-evaluation-per-agent-and-generation", all(a.tests == G and len(a.fitness) == G for a in final), site=self.site + "/fitness-entries"))
+        res.append(Ob("returned-fitness-history-has-one-row-per-generation-and-one-entry-per-agent", len(fits) == G and all(isinstance(f, list) and len(f) == P for f in fits),
+                      site=self.site + "/returned-fitnesses"))
+        if min(per) > 0:
+            if loop == "ma-on":
+                done_after = lambda g: sum(g * x for x in per) >= ms          # budget summed over the population
             else:
-                # per-agent budget: training stops as soon as one agent has met it
-                done_after = lambda g: any(g * x >= ms for x in per)
+                done_after = lambda g: any(g * x >= ms for x in per)          # per-agent budget: stop as soon as one agent has met it
             res.append(Ob("stops-in-the-first-generation-in-which-the-budget-is-met", G >= 1 and done_after(G) and not done_after(G - 1), site=self.site + "/stop-generation"))
-            res.append(Ob("every-agent-took-the-documented-steps-per-generation", all(a.steps[-1] == G * x for a, x in zip(pop_in, per)), site=self.site + "/step-counter"))
-        if self.loop != "off":
-            res.append(Ob("a-learn-call-after-every-learn_step-chunk", all(a.learns == G * -(-ev // l) for a, l in zip(pop_in, ls_c))))
+            res.append(Ob("every-agent-took-the-documented-steps-per-generation", all(a.steps[-1] == G * x for a, x in zip(final, per)), site=self.site + "/step-counter"))
+        # learn-call schedule
+        if loop in ("on", "ma-on"):
+            res.append(Ob("a-learn-call-after-every-learn_step-chunk", all(a.learns == G * -(-ev // l) for a, l in zip(final, ls_c)), site=self.site + "/learn-schedule"))
+        elif loop == "offline":
+            res.append(Ob("one-learn-call-per-step", all(a.learns == G * ev for a in final), site=self.site + "/learn-schedule"))
+        elif loop == "bandit":
+            want = [G * cint(ep) * l if self.ready else 0 for l in ls_c]
+            res.append(Ob("learn_step-learn-calls-per-environment-step-once-the-memory-is-ready", all(a.learns == w for a, w in zip(final, want)), site=self.site + "/learn-schedule"))
+        else:
+            T = ev // E
+            want = []
+            for l in ls_c:
+                if not self.ready:
+                    want.append(0)
+                elif l > E:
+                    k = l // E
+                    want.append(G * -(-T // k))          # every (learn_step // num_envs)-th iteration
+                else:
+                    want.append(G * T * (E // l))        # num_envs // learn_step learn calls per iteration
+            res.append(Ob("learn-calls-follow-learn_step-and-num_envs", all(a.learns == w for a, w in zip(final, want)), site=self.site + "/learn-schedule"))
+        if loop in ("off", "ma-off", "bandit"):
+            res.append(Ob("one-memory-write-per-environment-step", mem.adds == env.steps, site=self.site + "/memory-writes"))
+        if self.evolve:
+            c_ck = cint(ck)
+            # selection: every generation (bandits: whenever another evo_steps steps have been completed, at most once a generation)
+            want_rounds = min(G, (G * per[0]) // ev) if loop == "bandit" else G
+            res.append(Ob("selection-and-mutation-run-as-often-as-documented", len(tourn.rounds) == want_rounds and mut.calls == want_rounds + 1, site=self.site + "/selection-count"))
+            ok_elite, ok_size, ok_idx, ok_parent = True, True, True, True
+            for before, elite, new in tourn.rounds:
+                means = [b[3][-1] for b in before]
+                best = max(range(len(before)), key=lambda j: means[j])
+                top = [b for b in before if b[3][-1] == means[best]]
+                # the first member of the next generation is the best agent, with its counters and history
+                ok_elite &= any(new[0] == b for b in top)
+                ok_size &= len(new) == P
+                ok_idx &= len({a[1] for a in new}) == len(new) and all(a[1] > max(b[1] for b in before) for a in new[1:])
+                ok_parent &= all(any(a[0] == b[0] and a[2:] == b[2:] for b in before) for a in new)
+            res.append(Ob("elitism/best-agent-of-the-generation-is-carried-over-with-its-counters", ok_elite, site=self.site + "/elitism"))
+            res.append(Ob("selection/next-generation-has-the-population-size", ok_size, site=self.site + "/selection"))
+            res.append(Ob("selection/fresh-distinct-indices", ok_idx, site=self.site + "/indices"))
+            res.append(Ob("selection/every-member-continues-a-parent-of-the-previous-generation", ok_parent, site=self.site + "/selection"))
+            # checkpoints: whole populations, never more than one per generation nor more than the steps allow, at least one once a
+            # full checkpoint interval has been trained
+            fin = final[0].steps[-1]
+            res.append(Ob("checkpoints/whole-population-saved", all(len(sv) == P for sv in saves), site=self.site + "/checkpoint"))
+            res.append(Ob("checkpoints/count-within-the-documented-frequency", len(saves) <= min(G, fin // c_ck) and (len(saves) >= 1 or fin < c_ck), site=self.site + "/checkpoint"))
         res.append(Ob("twin/never-more-than-one-generation", G <= 1, expect="sat"))
         return res
 
 
 def cases(tier):
-    cs = [Accounting("on", 1), Accounting("on", 2), Accounting("ma-on", 2), Accounting("off", 1), Accounting("off", 2)]
+    cs = [Accounting("on", 1), Accounting("on", 2), Accounting("ma-on", 2), Accounting("off", 1), Accounting("off", 2),
+          Accounting("ma-off", 2), Accounting("bandit", 1), Accounting("offline", 1),
+          Accounting("off", 2, ready=True), Accounting("ma-off", 2, ready=True), Accounting("bandit", 1, ready=True),
+          Accounting("on", 2, evolve=True), Accounting("off", 2, evolve=True, ready=True), Accounting("bandit", 1, evolve=True)]
     if tier == "thorough":
-        cs += [Accounting("on", 3, pop=3), Accounting("ma-on", 1, pop=3), Accounting("off", 3, pop=3)]
+        cs += [Accounting("on", 3, pop=3), Accounting("ma-on", 1, pop=3), Accounting("off", 3, pop=3),
+               Accounting("ma-off", 1, pop=3, ready=True), Accounting("off", 3, pop=3, ready=True), Accounting("off", 1, ready=True),
+               Accounting("ma-on", 2, evolve=True), Accounting("ma-off", 2, evolve=True), Accounting("offline", 1, evolve=True),
+               Accounting("on", 1, pop=3, evolve=True), Accounting("bandit", 1, pop=3, evolve=True, ready=True)]
     return cs
